@@ -348,6 +348,19 @@ fn prompt_cases(thorough: bool) -> Vec<Case> {
             v.push(Case { site: "prompt print".into(), prog: prog.clone(), spelling: None, stdin, interpreted: true, note: format!("-i, command at prompt {}", k) });
         }
     }
+    // trap flag set by POPF and then an INT 3: the breakpoint prompt shows the same flags as the step prompts
+    {
+        let mut code = vec![label("start")];
+        set_flags(&mut code, 0x0100 | 0x0004 | 0x0800);
+        code.push(mov(r16("bx"), imm(0x0BB0)));
+        code.push(int(3));
+        code.push(print(PrintKind::Flags));
+        let prog = Program { data: mem_data(), code };
+        for c in ["print flags", "print reg", "print mem 0 -> 15"] {
+            // prompts: before mov (step), before int 3 (step), at the breakpoint, before print (step)
+            v.push(Case { site: "prompt print".into(), prog: prog.clone(), spelling: None, stdin: vec![c.to_string(), "n".into(), c.to_string(), "n".into(), c.to_string(), "n".into(), c.to_string(), "n".into(), "n".into()], interpreted: false, note: "trap flag and int 3".into() });
+        }
+    }
     // trap flag set by POPF: prompts appear from the next instruction on
     let mut code = vec![label("start")];
     set_flags(&mut code, 0x0100 | 0x0001 | 0x0080);
@@ -357,6 +370,54 @@ fn prompt_cases(thorough: bool) -> Vec<Case> {
     let prog = Program { data: mem_data(), code };
     for c in cmds.iter().step_by(if thorough { 1 } else { 4 }) {
         v.push(Case { site: "prompt print".into(), prog: prog.clone(), spelling: None, stdin: vec![c.clone(), "n".into(), c.clone(), "n".into(), "n".into(), "n".into()], interpreted: false, note: "trap flag".into() });
+    }
+    v
+}
+
+/// Every 16-bit address constant in every spelling, typed at a breakpoint prompt: the program first
+/// fills the first 64 KiB with a pattern that identifies each address, so each answer shows which
+/// address the printer understood.
+fn prompt_constant_cases(thorough: bool) -> Vec<Case> {
+    // word at offset a = a for every even a below 64 KiB (data definitions: 32767 words, the most one segment
+    // takes): the bytes at v identify v
+    let mut data: Vec<DataDef> = Vec::new();
+    for a in 0..32767u32 {
+        data.push(DataDef::Val(None, W::W, (a * 2) as i32));
+    }
+    let code = vec![label("start"), mov(r16("bx"), imm(0x0BB0)), int(3), print(PrintKind::MemRange(0x1234, 0x1237))];
+    let prog = Program { data, code };
+    let mut v = Vec::new();
+    let spell = |x: u32, k: usize| -> String {
+        match k {
+            0 => format!("{}", x),
+            1 => format!("0x{:x}", x),
+            2 => format!("0x{:05x}", x),
+            3 => format!("0b{:b}", x),
+            4 => format!("0X{:04X}", x),
+            _ => format!("{:07}", x),
+        }
+    };
+    let step = if thorough { 1 } else { 1 };
+    let per_run = 4096u32;
+    let spellings: Vec<usize> = if thorough { vec![0, 1, 2, 3, 4, 5] } else { vec![0, 1, 2, 3] };
+    for k in spellings {
+        let mut lo = 0u32;
+        while lo < 65532 {
+            let mut stdin: Vec<String> = Vec::new();
+            let mut x = lo;
+            while x < (lo + per_run).min(65532) {
+                // alternate the two absolute forms; the length is spelled in the same radix
+                if x % 2 == 0 {
+                    stdin.push(format!("print mem {} : {}", spell(x, k), spell(1, k)));
+                } else {
+                    stdin.push(format!("print mem {} -> {}", spell(x, k), spell(x + 1, k)));
+                }
+                x += step;
+            }
+            stdin.push("n".into());
+            v.push(Case { site: "prompt print".into(), prog: prog.clone(), spelling: None, stdin, interpreted: false, note: format!("every address 0x{:04X}..0x{:04X} in spelling {}", lo, lo + per_run - 1, k) });
+            lo += per_run;
+        }
     }
     v
 }
@@ -372,6 +433,7 @@ pub fn run(tier: &Tier) -> i32 {
     cases.extend(mem_cases(tier.thorough));
     let n_mem = cases.len() - n_regflag;
     cases.extend(prompt_cases(tier.thorough));
+    cases.extend(prompt_constant_cases(tier.thorough));
     let n_prompt = cases.len() - n_regflag - n_mem;
     let mb: HashMap<String, Vec<Item>> = HashMap::new();
     let prints = std::sync::atomic::AtomicU64::new(0);
@@ -383,7 +445,7 @@ pub fn run(tier: &Tier) -> i32 {
             None => render(&cs.prog),
             Some((r, up)) => respell(&cs.prog, r, up),
         };
-        let (rr, out, res) = cli_conformance_src(&src, &cs.prog, &mb, &cs.stdin, cs.interpreted, 5000);
+        let (rr, out, res) = cli_conformance_src(&src, &cs.prog, &mb, &cs.stdin, cs.interpreted, 200_000);
         c.add_exec(1);
         for e in rr.events.iter() {
             match e {
@@ -439,7 +501,7 @@ pub fn run(tier: &Tier) -> i32 {
     }
     let mut cov = Coverage::default();
     cov.exhaustive = true;
-    cov.rule = "every run is the real binary; stdout is parsed back field by field (12 registers as four upper-case hex digits, nine flags as 0/1, memory as two-digit upper-case hex cells in rows of 16) and compared with the reference interpreter's machine state at that point. Register group: 11 rotations of 11 distinct values over the 11 settable registers (each register holds each value once). Flag group: all 512 combinations of the nine flags loaded through POPF (TF combinations are single-stepped with 'n'). Memory group (every second run under DS=0x1000: absolute ranges must not depend on DS): 10 starts x 10 lengths (0,1,2,15,16,17,31,32,33,64) for 'a -> b' and 'a : n' incl. ranges ending at 0xFFFFF, backwards ranges, DS-relative ranges for DS over the segment lattice incl. ranges leaving the space and ranges longer than 64 KiB, each in 5 spellings (decimal, 0x, 0X + upper-case keywords, 0b, upper-case). Prompt group: every command of a 100+ command alphabet (4 radices, spacing and case variants, commands padded beyond 256 and 4096 bytes, reported ranges, constants beyond 2^20 and beyond 2^64) typed alone / repeated / all in one script at an INT 3 prompt, at each single-step prompt of -i mode, and under the trap flag; after every prompt the program prints registers, flags and memory again, so any change caused by printing is visible".into();
+    cov.rule = "every run is the real binary; stdout is parsed back field by field (12 registers as four upper-case hex digits, nine flags as 0/1, memory as two-digit upper-case hex cells in rows of 16) and compared with the reference interpreter's machine state at that point. Register group: 11 rotations of 11 distinct values over the 11 settable registers (each register holds each value once). Flag group: all 512 combinations of the nine flags loaded through POPF (TF combinations are single-stepped with 'n'). Memory group (every second run under DS=0x1000: absolute ranges must not depend on DS): 10 starts x 10 lengths (0,1,2,15,16,17,31,32,33,64) for 'a -> b' and 'a : n' incl. ranges ending at 0xFFFFF, backwards ranges, DS-relative ranges for DS over the segment lattice incl. ranges leaving the space and ranges longer than 64 KiB, each in 5 spellings (decimal, 0x, 0X + upper-case keywords, 0b, upper-case). Prompt group: every command of a 100+ command alphabet (4 radices, spacing and case variants, commands padded beyond 256 and 4096 bytes, reported ranges, constants beyond 2^20 and beyond 2^64) typed alone / repeated / all in one script at an INT 3 prompt, at each single-step prompt of -i mode, and under the trap flag; after every prompt the program prints registers, flags and memory again, so any change caused by printing is visible. Prompt constants exhaustively: the data definitions fill the first 64 KiB with an address-identifying pattern, stops at INT 3, and EVERY address 0..65535 is typed in 4 (thorough 6) spellings (decimal, 0x, 0x with leading zeros, 0b, 0X, zero-padded decimal) in both absolute forms".into();
     cov.bounds = json!({"register_flag_runs": n_regflag, "memory_runs": n_mem, "prompt_runs": n_prompt, "program_prints_checked": prints.load(Ordering::Relaxed), "prompt_prints_checked": prompt_prints.load(Ordering::Relaxed), "range_reports_checked": reports.load(Ordering::Relaxed), "memory_cells_checked": cells.load(Ordering::Relaxed), "tier": tier.name()});
     cov.assumptions = common_assumptions();
     cov.assumptions.push("messages are parsed tolerantly: `XX : 0xHHHH`, `XF : [01]`, rows of two-digit hex cells; a range report is any non-empty line without cells".into());
